@@ -295,10 +295,11 @@ func (gen *generator) irNoCFIConst(t types.Type, old *ast.NoCFIConst) (*constant
 	}
 	var f constant.Constant
 	switch v := v.(type) {
-	case *ir.Func, *ir.IFunc, *ir.Alias:
+	case *ir.Func, *ir.IFunc, *ir.Alias, *ir.Global:
+		// Any global value may follow no_cfi.
 		f = v
 	default:
-		return nil, errors.Errorf("invalid function type; expected *ir.Func or *ir.IFunc, got %T", v)
+		return nil, errors.Errorf("invalid global value type; expected *ir.Func, *ir.IFunc, *ir.Alias or *ir.Global, got %T", v)
 	}
 	c := constant.NewNoCFI(f)
 	if typ := c.Type(); !t.Equal(typ) {
